@@ -110,7 +110,7 @@ class Exec:
         if e.id in self.P.classes or e.id in ("dict", "set", "list", "tuple", "len", "isinstance", "zip",
                                               "enumerate", "range", "reversed", "all", "any", "sorted",
                                               "min", "max", "str", "_id", "id", "Exception", "ValueError",
-                                              "TypeError", "KeyError", "frozenset", "object", "cast", "sum", "Sequence", "type", "super"):
+                                              "TypeError", "KeyError", "frozenset", "object", "cast", "sum", "Sequence", "type", "super", "print", "stderr"):
             return k(SClosure("name", e.id), st)
         if e.id in self.P.func_module:
             return k(SClosure("func", f"{self.P.func_module[e.id]}.{e.id}"), st)
@@ -135,6 +135,17 @@ class Exec:
             return k(SRef(("list", sq.elem), r), st2.put(r, ListCell(sq.elem, sq.n, sq.arr)))
         return self.evs(e.elts, st, done)
 
+    def ev_Set(self, e, st, k):
+        def done(vals, st2):
+            if not vals or isinstance(vals[0], SRef): raise Unsupported("set display")
+            ty = vals[0].ty
+            mem = z3.K(S.sort_of(ty), z3.BoolVal(False))
+            for v in vals:
+                mem = z3.Store(mem, term_of(v), True)
+            r = new_ref()
+            return k(SRef(("set", ty), r), st2.put(r, SetCell(ty, mem)))
+        return self.evs(e.elts, st, done)
+
     def ev_Dict(self, e, st, k):
         if e.keys: raise Unsupported("non-empty dict display")
         return k(SClosure("emptydict", "{}"), st)
@@ -157,8 +168,10 @@ class Exec:
         return self.ev(e.value, st, got)
 
     def getattr(self, o: SV, name: str, st: St, k):
+        if isinstance(o, SPrim) and o.ty == "str":
+            return k(SClosure("method", name, recv=o), st)
         if isinstance(o, SOpaqueObj):
-            return k(SOpaqueObj(f"{o.name}.{name}"), st)
+            return k(SOpaqueObj(f"{o.name}.{name}", t=S.obj_fn("attr." + name, S.Obj, S.Obj)(o.ident())), st)
         if isinstance(o, SPrim) and (o.ty, name) in S.OPAQUE_ATTRS:
             ty, f = S.OPAQUE_ATTRS[(o.ty, name)]
             return k(S.wrap(ty, f(o.t)), st)
@@ -166,8 +179,12 @@ class Exec:
             return k(SClosure("method", name, recv=o), st)
         if isinstance(o, SPrim) and o.ty in S.DATA_FIELDS:
             try:
-                return k(ops.data_field(o, name), st)
+                fieldval = ops.data_field(o, name)
             except KeyError:
+                fieldval = None
+            if fieldval is not None:
+                return k(fieldval, st)
+            if True:
                 g = self.P.find_getter(o.ty, name)
                 if g: return self.call_function(g[1], [o], {}, st, k, owner=o.ty)
                 m = self.P.find_method(o.ty, name)
@@ -213,8 +230,10 @@ class Exec:
     def ev_Subscript(self, e, st, k):
         def got(o, st2):
             if isinstance(o, SOpaqueObj):
-                key = ast.unparse(e.slice) if isinstance(e.slice, ast.Constant) else "?"
-                return k(SOpaqueObj(f"{o.name}[{key}]"), st2)
+                if isinstance(e.slice, ast.Constant):
+                    key = ast.unparse(e.slice)
+                    return k(SOpaqueObj(f"{o.name}[{key}]", t=S.obj_fn("item." + key, S.Obj, S.Obj)(o.ident())), st2)
+                return k(SOpaqueObj(f"{o.name}[?]"), st2)
             if isinstance(e.slice, ast.Slice):
                 return self.slice(o, e.slice, st2, k)
             return self.ev(e.slice, st2, lambda i, st3: self.index(o, i, st3, k))
@@ -354,6 +373,9 @@ class Exec:
             if isinstance(e.op, ast.Add):
                 try:
                     sa, sb = ops.as_seq(st2, a), ops.as_seq(st2, b)
+                except Unsupported:
+                    sa = None
+                if sa is not None:            # (the continuation must stay outside the try block)
                     if isinstance(sa, EmptySeq): return k(sb, st2)
                     if isinstance(sb, EmptySeq): return k(sa, st2)
                     res = ops.seq_concat(sa, sb)
@@ -361,8 +383,6 @@ class Exec:
                         r = new_ref()
                         return k(SRef(("list", res.elem), r), st2.put(r, ListCell(res.elem, res.n, res.arr)))
                     return k(res, st2)
-                except Unsupported:
-                    pass
             if isinstance(e.op, (ast.BitOr, ast.Sub, ast.BitAnd)) and not isinstance(a, SPrim):
                 try:
                     sa, sb = self.to_setv(a, st2), self.to_setv(b, st2)
@@ -449,6 +469,13 @@ class Exec:
         st = st.fact(z3.ForAll([j, j2], z3.Implies(z3.And(j >= 0, j < j2, j2 < n), srcidx(j) < srcidx(j2))))
         st = st.fact(z3.ForAll([j], z3.Implies(z3.And(j >= 0, j < src.n, c_at(j)),
                      z3.And(dstidx(j) >= 0, dstidx(j) < n, srcidx(dstidx(j)) == j))))
+        # ground instances at positions 0 and 1 (code typically asks "is the result empty / a singleton / longer";
+        # the instances give the solver the witnesses it would otherwise have to guess)
+        for c0 in (0, 1):
+            jj = z3.IntVal(c0)
+            st = st.fact(z3.Implies(n > c0, z3.And(srcidx(jj) >= 0, srcidx(jj) < src.n, c_at(srcidx(jj)),
+                                                   arr[jj] == b_at(srcidx(jj)), dstidx(srcidx(jj)) == jj)))
+        st = st.fact(z3.Implies(n > 1, srcidx(z3.IntVal(0)) < srcidx(z3.IntVal(1))))
         return k(SSeq(body.ty, n, arr), st)
 
     def ev_DictComp(self, e, st, k):
